@@ -183,3 +183,14 @@ func ShrinkC18VM(c C18VM) []C18VM {
 
 	return out
 }
+
+// HasReset reports whether the control script contains a reset.
+func (c C18VM) HasReset() bool {
+	for _, s := range c.Cfg.Steps {
+		if s.Cmd == int(memcontrolprotocol.CmdReset) {
+			return true
+		}
+	}
+
+	return false
+}
